@@ -278,11 +278,30 @@ def r07c(ctx):
         terms = sorted((c, flow.show(e).split('(')[-1][:3] if False else e[2] if e[0] == 'field' else '?') for es in eff.values() for (c, s_, t, e, ln) in es if s_ == 1)
         o['accumulators'] = terms
         ps = x.calls('alloc::vec::Vec::push')
-        o['pushes'] = sorted(flow.show(x.arg(p, 1))[:40] for p in ps)
+        # per-chunk pushes, and the initial content of the list (`Vec::new()` + push of a value that is still its
+        # constant initialiser there, or `vec![c, ..]`)
+        inloop = [p for p in ps if c05.loop_of(x, p) is not None]
+        o['pushes'] = sorted(flow.show(x.arg(p, 1))[:40] for p in inloop)
+        init = []
+        for p in ps:
+            if p in inloop:
+                continue
+            srcs = [se for (sb, ssi, se) in x.flow.sources(x.arg(p, 1), (p, None)) if sb is None or sb == p or p in x.cfg.reach([sb])]
+            vals = {flow.const_eval(se) for se in srcs}
+            init.append(next(iter(vals)) if len(vals) == 1 and None not in vals else flow.show(x.arg(p, 1))[:30])
+        for b_ in sorted(x.cfg.reach0):
+            for st_ in x.blocks[b_]['s']:
+                r_ = st_.get('r')
+                if r_ and r_['k'] == 'agg' and r_.get('ak') == 'array' and 'alloc::macros::vec' in (st_.get('mac') or '') and 'p' in st_['d']:
+                    for op_ in r_['ops']:
+                        e_ = x.flow.expr(op_)
+                        init.append(flow.const_eval(e_) if flow.const_eval(e_) is not None else flow.show(e_)[:30])
+        o['initial elements'] = init
         # EOF terminates: comparison of error kind with UnexpectedEof leads out of the loop
         o['eof'] = bool(edges_where(x, lambda op, l, r: op == 'Eq' and l[0] == 'call' and sg(l[1]).endswith('Error::kind')))
         rs = [e for (_, _, k, e) in x.ret_sites() if k == 'ok']
-        o['ret'] = flow.show(rs[0])[:80] if rs else None
+        import re as _re
+        o['ret'] = _re.sub(r'boxed::box_assume_init_into_vec_unsafe\(.*?\)\)', 'Vec::new()', flow.show(rs[0]))[:80] if rs else None
         return o
     ms = multi(an(F.body(CF + 'deserialize_chunks_to_writer')), 'cas_chunk_format::deserialize_chunk_to_writer')
     ma = multi(an(F.body(CF + 'deserialize_async::deserialize_chunks_to_writer_from_async_read::{closure#0}')), 'deserialize_async::deserialize_chunk_to_writer')
